@@ -238,3 +238,11 @@ def run(ctx):
     # merge start from a wrong ancestor and committed edits are force-merged away
     from . import c04
     c04.r7_log_kind_arms(ctx, rule_id="C05-R5")
+    # shared with C06-R2: an auto-merge rewinds the local log before re-applying the merged
+    # events; if file, rows and tree are not cut alike the merged events land on stale rows
+    from . import c06
+    c06.r2_tree_follows_storage(ctx)
+    ctx.rules[-1].id = "C05-R6"
+    for inst in ctx.rules[-1].instances:
+        inst["rule"] = "C05-R6"
+        inst["key"] = inst["key"].replace("C06-R2|", "C05-R6|", 1)
